@@ -93,6 +93,14 @@ pub fn run(mut run: Run) -> i32 {
         // the named predicates of IntersectionMatrix, evaluated on the TRUE matrix, against their documented masks (the operand dimensions come from
         // the abstract description, not from the matrix)
         named_predicates(acc, idx, &truth, a.ag.dim(), b.ag.dim());
+        // the f32 instantiation (lattice coordinates are exact in f32) on every fifth pair
+        if idx % 5 == 0 {
+            acc.evals += 1;
+            let got = guard(|| relate_f32(&to_f32(&a.g), &to_f32(&b.g))).unwrap_or_else(|e| format!("panic:{}", e));
+            if got != truth {
+                acc.viol(format!("relate<f32> {}x{} true={} got={}", a.ty(), b.ty(), truth, got), idx, || json!({"a": a.wkt(), "b": b.wkt(), "true": truth, "got": got}));
+            }
+        }
         for (how, got) in [
             ("concrete", guard(|| relate_concrete(&a.g, &b.g))),
             ("enum", guard(|| relate_enum(&a.g, &b.g))),
